@@ -64,6 +64,7 @@ type Ctx struct {
 
 func New(prop, tier, outDir string) *Ctx {
 	return &Ctx{Prop: prop, Tier: tier, Level: "other", OutDir: outDir, seen: map[string]bool{},
+		NotCovered: []string{}, Assumptions: []string{}, Trusted: []string{},
 		ruleIx: map[string]*RuleDoc{}, Analysed: map[string]any{}, Extra: map[string]any{}, start: time.Now()}
 }
 
